@@ -129,6 +129,86 @@ fn strictly_ascending(v: &[u32]) -> bool {
     v.windows(2).all(|w| w[0] < w[1])
 }
 
+/// The k values at which partly consumed iterators are examined: every k for sequences of up to 8
+/// items; for longer ones the borders (plus the inline limit for id iterators, the 8-bit border for
+/// resolving iterators), because every examination walks the whole sequence.
+fn ks_for(len: usize, resolving: bool) -> Vec<usize> {
+    let mut v: Vec<usize> = if len <= 8 {
+        (0..=len + 1).collect()
+    } else if resolving {
+        vec![0, 1, len]
+    } else {
+        vec![0, 1, 30, 31, len - 1, len]
+    };
+    if len > 256 {
+        v.push(256);
+    }
+    v.sort_unstable();
+    v.dedup();
+    v
+}
+
+const SIG_IT_COUNT: &str = "count() after taking k items is not the number of remaining items";
+const SIG_IT_HINT: &str = "size_hint() after taking k items excludes the number of remaining items";
+const SIG_IT_NTH: &str = "nth(k) is not the k-th item of the forward iteration";
+const SIG_IT_SKIP: &str = "skip(k) does not yield the forward iteration from item k on";
+const SIG_IT_LAST: &str = "last() after taking k items is not the last item of the forward iteration";
+
+/// Iterator adaptors of one iterator type must agree with its own forward iteration
+/// (`mk` yields a fresh iterator each time; methods are called on the iterator itself, not through `map`).
+fn iter_protocol<I: Iterator, M: Fn() -> I, K: Fn(I::Item) -> u32>(mk: M, key: K, site: &'static str, resolving: bool) -> Result<(), Diff> {
+    at(site);
+    let mut fwd: Vec<u32> = vec![];
+    let mut it = mk();
+    while let Some(x) = it.next() {
+        fwd.push(key(x));
+    }
+    let len = fwd.len();
+    let fail = |sig: &str, what: String| Err((site.to_string(), sig.to_string(), format!("{what}; forward iteration yields {fwd:?}")));
+    let taken = |k: usize| -> I {
+        let mut it = mk();
+        for _ in 0..k {
+            it.next();
+        }
+        it
+    };
+    for k in ks_for(len, resolving) {
+        let rem = len.saturating_sub(k);
+        let c = taken(k).count();
+        if c != rem {
+            return fail(SIG_IT_COUNT, format!("k = {k}: count() = {c}, {rem} items remain"));
+        }
+        let (lo, hi) = taken(k).size_hint();
+        if lo > rem || hi.map_or(false, |h| h < rem) {
+            return fail(SIG_IT_HINT, format!("k = {k}: size_hint() = ({lo}, {hi:?}), {rem} items remain"));
+        }
+        let n = mk().nth(k).map(&key);
+        if n != fwd.get(k).copied() {
+            return fail(SIG_IT_NTH, format!("nth({k}) = {n:?}"));
+        }
+        let sk: Vec<u32> = mk().skip(k).map(&key).collect();
+        if sk[..] != fwd[k.min(len)..] {
+            return fail(SIG_IT_SKIP, format!("skip({k}) yields {sk:?}"));
+        }
+        let l = taken(k).last().map(&key);
+        let want = if rem > 0 { fwd.last().copied() } else { None };
+        if l != want {
+            return fail(SIG_IT_LAST, format!("k = {k}: last() = {l:?}"));
+        }
+    }
+    Ok(())
+}
+
+/// `iter()` and `(&g).into_iter()` of a group (HpoGroup has no owned IntoIterator).
+fn group_iter_protocol(g: &HpoGroup) -> Result<(), Diff> {
+    iter_protocol(|| g.iter(), |i| i.as_u32(), "HpoGroup::iter", false)?;
+    if g.len() > 8 {
+        // same iterator type; the long walk is done once
+        return Ok(());
+    }
+    iter_protocol(|| g.into_iter(), |i| i.as_u32(), "<&HpoGroup as IntoIterator>::into_iter", false)
+}
+
 /// First difference between an observation and the expectation. `producer` is the API function
 /// that created / last modified the group: it is blamed when the *content* is wrong; the
 /// accessors are blamed when the content is right but they misreport it.
@@ -170,6 +250,7 @@ fn check_group(g: &HpoGroup, expect: &BTreeSet<u32>, probes: &[u32], futures: &[
     if let Some(d) = diff(&obs, &exp, producer, probes) {
         return Err(d);
     }
+    group_iter_protocol(g)?;
     for &y in futures {
         at("HpoGroup::clone");
         let mut c = g.clone();
@@ -253,9 +334,12 @@ impl<'p> Live<'p> {
         let exp = Snap::expected(&sorted, self.probes);
         let obs = Snap::of(&self.g, self.probes);
         self.observations += 1;
-        match diff(&obs, &exp, producer, self.probes) {
-            Some(d) => Err(self.fail(d)),
-            None => Ok(()),
+        if let Some(d) = diff(&obs, &exp, producer, self.probes) {
+            return Err(self.fail(d));
+        }
+        match group_iter_protocol(&self.g) {
+            Err(d) => Err(self.fail(d)),
+            Ok(()) => Ok(()),
         }
     }
 
@@ -1352,15 +1436,23 @@ type AFind = (String, String, String, String);
 
 /// Check the 8 ancestor queries for the ordered pair (a, b); findings are appended to `out`.
 fn check_pair(ont: &Ontology, r: &RefOnt, a: u32, b: u32, probes: &[u32], fp: &mut Fp, out: &mut Vec<AFind>) {
+    check_pair_across(ont, r, ont, r, a, b, probes, fp, out)
+}
+
+/// The same for term `a` of ontology A and term `b` of ontology B (possibly two instances /
+/// two releases): the queries take any two term handles; ancestors of `a` are those in A,
+/// ancestors of `b` those in B; the iterator twins resolve the resulting ids in A.
+#[allow(clippy::too_many_arguments)]
+fn check_pair_across(ont: &Ontology, r: &RefOnt, ont_b: &Ontology, r_b: &RefOnt, a: u32, b: u32, probes: &[u32], fp: &mut Fp, out: &mut Vec<AFind>) {
     at("Ontology::hpo");
-    let (Some(ta), Some(tb)) = (ont.hpo(a), ont.hpo(b)) else {
+    let (Some(ta), Some(tb)) = (ont.hpo(a), ont_b.hpo(b)) else {
         out.push(("Ontology::hpo".into(), "a term of a freshly built ontology cannot be fetched".into(), format!("hpo({a}), hpo({b})"), String::new()));
         return;
     };
     let anc_a = &r.terms[&a].ancestors;
-    let anc_b = &r.terms[&b].ancestors;
+    let anc_b = &r_b.terms[&b].ancestors;
     let common: BTreeSet<u32> = anc_a.intersection(anc_b).copied().collect();
-    let all_common: BTreeSet<u32> = r.anc_incl(a).intersection(&r.anc_incl(b)).copied().collect();
+    let all_common: BTreeSet<u32> = r.anc_incl(a).intersection(&r_b.anc_incl(b)).copied().collect();
     let union: BTreeSet<u32> = anc_a.union(anc_b).copied().collect();
     let mut union_incl = union.clone();
     union_incl.insert(a);
@@ -1387,6 +1479,12 @@ fn check_pair(ont: &Ontology, r: &RefOnt, a: u32, b: u32, probes: &[u32], fp: &m
             // wrong content is blamed on the query (with the formula); an accessor that misreports a correct result keeps its own site
             let sig = if s == *site { format!("{sig}; expected {formula}") } else { sig };
             out.push((s, sig, format!("{site}({a}, {b})"), what));
+        }
+        if i == 2 && obs.iter.iter().all(|x| r.terms.contains_key(x)) {
+            // resolving iterator over a group: HpoGroup::terms
+            if let Err((s, sig, what)) = iter_protocol(|| g.terms(ont), |t| t.id().as_u32(), "HpoGroup::terms", true) {
+                out.push((s, sig, format!("{site}({a}, {b}).terms(ontology)"), what));
+            }
         }
         twins.push(obs.iter);
     }
@@ -1429,6 +1527,14 @@ fn check_pair(ont: &Ontology, r: &RefOnt, a: u32, b: u32, probes: &[u32], fp: &m
         }
         ids2.sort_unstable();
         let (len, is_empty) = (c.len(), c.is_empty());
+        if let Err((s, sig, what)) = iter_protocol(|| c.iter(), |t| t.id().as_u32(), "Combined::iter", true) {
+            out.push((s, sig, format!("{site}({a}, {b}).iter()"), what));
+        }
+        if len <= 8 {
+            if let Err((s, sig, what)) = iter_protocol(|| (&c).into_iter(), |t| t.id().as_u32(), "<&Combined as IntoIterator>::into_iter", true) {
+                out.push((s, sig, format!("{site}({a}, {b}).into_iter()"), what));
+            }
+        }
         fp.set(&ids);
         let site = site.to_string();
         let q = format!("{site}({a}, {b})");
@@ -1501,12 +1607,17 @@ fn construct_ontology(f: &Facts, via: Via) -> Result<(Ontology, String), Viol> {
 }
 
 fn rust_query(prelude: &str, query: &str) -> String {
+    rust_query2(prelude, query, "ont")
+}
+
+/// `other` = name of the variable holding the ontology of the second term
+fn rust_query2(prelude: &str, query: &str, other: &str) -> String {
     // query looks like "HpoTerm::xyz(a, b)"
     let (name, args) = query.trim_start_matches("HpoTerm::").split_once('(').unwrap_or((query, "0, 0)"));
-    let args = args.trim_end_matches(')');
+    let args = args.split(')').next().unwrap_or("0, 0");
     let (a, b) = args.split_once(", ").unwrap_or(("0", "0"));
     let show = if name.ends_with("_ids") { "r.iter().map(|i| i.as_u32()).collect::<Vec<_>>()" } else { "r.iter().map(|t| t.id().as_u32()).collect::<Vec<_>>()" };
-    format!("use hpo::annotations::AnnotationId;\n{prelude}let a = ont.hpo({a}u32).unwrap();\nlet b = ont.hpo({b}u32).unwrap();\nlet r = a.{name}(&b);\nprintln!(\"{{:?}}\", {show});\n")
+    format!("use hpo::annotations::AnnotationId;\n{prelude}let a = ont.hpo({a}u32).unwrap();\nlet b = {other}.hpo({b}u32).unwrap();\nlet r = a.{name}(&b);\nprintln!(\"{{:?}}\", {show});\n")
 }
 
 /// Run the ordered pairs (a in `firsts`, b in `seconds` or, if None, in all terms) on the ontology
@@ -1721,8 +1832,79 @@ fn ancestors_chain300(ctx: &mut Ctx, seen: &mut BTreeSet<String>) {
     }
 }
 
+/// Two ontologies (two "releases" over the same ids): every term of A against every term of B.
+fn ancestors_across(ctx: &mut Ctx, seen: &mut BTreeSet<String>) {
+    for n in [3usize, 4] {
+        let dags = all_dags(n);
+        let total = dags.len() * dags.len();
+        let stride = if n == 4 && !ctx.tier.thorough() { 97 } else { 1 };
+        ctx.space(
+            &format!("ancestors/two-instances/D{n}xD{n}"),
+            &format!("ordered pairs (A, B) of the {} labelled DAGs on the ids {:?}{}: both built as separate Ontology instances (Builder, build_minimal), then for all {} pairs (a in A, b in B), equal ids included, the 8 queries a.query(b) against set algebra on anc_A(a) and anc_B(b); iterator twins resolve in A (all ids exist in both); one case = one (A, B)", dags.len(), &POOL[..n], if stride == 1 { format!(" (all {total})") } else { format!(" - every {stride}th of the {total} pairs in row-major order") }, n * n),
+        );
+        if stride != 1 {
+            ctx.mark_partial(&format!("ancestors/two-instances/D4xD4: quick tier takes every {stride}th ordered pair of graphs (all pairs in the thorough tier)"));
+        }
+        let ids: Vec<u32> = POOL[..n].to_vec();
+        for (i, da) in dags.iter().enumerate() {
+            for (j, db) in dags.iter().enumerate() {
+                if (i * dags.len() + j) % stride != 0 {
+                    continue;
+                }
+                if !ctx.take() {
+                    continue;
+                }
+                ctx.state();
+                if da != db {
+                    ctx.nontrivial();
+                }
+                let (fa, fb) = (Facts::from_dag(da, &POOL), Facts::from_dag(db, &POOL));
+                let (ra, rb) = (RefOnt::derive(&fa), RefOnt::derive(&fb));
+                let npairs = (n * n) as u64;
+                ctx.transitions(fa.n_steps() + fb.n_steps() + npairs * 8);
+                ctx.execs(npairs * 8);
+                ctx.validateds(npairs * 8);
+                let shape = format!("A: {}; B: {}", da.describe(), db.describe());
+                let (oa, ob) = match (construct_ontology(&fa, Via::Builder), construct_ontology(&fb, Via::Builder)) {
+                    (Ok(a), Ok(b)) => (a, b),
+                    (Err(v), _) | (_, Err(v)) => {
+                        ctx.violation(&v.0, &v.1, v.2);
+                        continue;
+                    }
+                };
+                let mut found: Vec<AFind> = vec![];
+                let mut fp = Fp::new();
+                let res = guard(|| {
+                    for &a in &ids {
+                        for &b in &ids {
+                            check_pair_across(&oa.0, &ra, &ob.0, &rb, a, b, &ids, &mut fp, &mut found);
+                        }
+                    }
+                });
+                ctx.outcome(fp.0);
+                let prelude = || format!("{}{}", ob.1.replace("let ont = ", "let ont_b = "), oa.1);
+                if let Err(msg) = res {
+                    ctx.violation(at_get(), SIG_PANIC, json!({"facts_a": fa.to_json(), "facts_b": fb.to_json(), "shape": shape, "panic": msg, "rust": prelude()}));
+                }
+                for (site, sig, query, what) in found {
+                    let key = format!("{site}|{sig}");
+                    if seen.contains(&key) {
+                        ctx.violation(&site, &sig, Value::Null);
+                    } else {
+                        ctx.violation(&site, &sig, json!({"facts_a (first term's ontology)": fa.to_json(), "facts_b (second term's ontology)": fb.to_json(), "shape": shape, "query": query, "difference": what, "rust": rust_query2(&prelude(), &query, "ont_b")}));
+                        seen.insert(key);
+                    }
+                }
+                if i == 3 && j == 5 {
+                    ctx.sample(|| json!({"A": da.describe(), "B": db.describe(), "ids": &ids, "term_pairs": n * n}));
+                }
+            }
+        }
+    }
+}
+
 pub fn run(ctx: &mut Ctx) {
-    ctx.rule = "histories: every insertion sequence over a 5-id alphabet up to the length bound, shortest first, executed step by step next to a BTreeSet (non-trivial = contains a repeated id and an id smaller than an earlier one); BFS: one case per distinct content, all insertion routes into it compared with each other and the model (non-trivial = at least two routes); inline-limit / constructors / algebra: one case per (order, ids, start) resp. input sequence resp. operand pair (asymmetric spaces: one case per smallest id of the small group / extra ids, non-trivial = the small group shares an id with the large one and brings a new one), distinct by construction (non-trivial: constructor input is not already strictly ascending, i.e. needs sorting or de-duplication; operands neither empty nor nested); ancestors: one case per labelled DAG (all ordered pairs; binary-flags: all flag variants of it) or per (deep shape / chain of 300, ids, construction, first term) (non-trivial = has a link); outcomes are fingerprints of the observed contents / results".into();
+    ctx.rule = "histories: every insertion sequence over a 5-id alphabet up to the length bound, shortest first, executed step by step next to a BTreeSet (non-trivial = contains a repeated id and an id smaller than an earlier one); BFS: one case per distinct content, all insertion routes into it compared with each other and the model (non-trivial = at least two routes); inline-limit / constructors / algebra: one case per (order, ids, start) resp. input sequence resp. operand pair (asymmetric spaces: one case per smallest id of the small group / extra ids, non-trivial = the small group shares an id with the large one and brings a new one), distinct by construction (non-trivial: constructor input is not already strictly ascending, i.e. needs sorting or de-duplication; operands neither empty nor nested); ancestors: one case per labelled DAG (all ordered pairs; binary-flags: all flag variants of it) or per (deep shape / chain of 300, ids, construction, first term) (non-trivial = has a link), or per ordered pair of graphs built as two instances (non-trivial = the graphs differ); outcomes are fingerprints of the observed contents / results".into();
     ctx.assumptions = vec![
         "any u32 is a legal id for HpoGroup (0 and u32::MAX included); the documentation states no restriction".into(),
         "HpoGroup::with_capacity: capacity is not observable; only the behaviour of the resulting empty group is checked".into(),
@@ -1730,6 +1912,8 @@ pub fn run(ctx: &mut Ctx) {
         "operands of the operators are groups built through the public API (insert / From / FromIterator), never hand-crafted unsorted storage".into(),
         "HpoTerm::all_union_ancestor_ids / all_union_ancestors: the documentation contradicts itself (prose: self and other included; doc-test: not included); exactly these two readings are accepted, the exclusive one is reported as the known finding".into(),
         "ancestor queries: acyclic ontologies; built with Builder + build_minimal, and (binary-flags, chain300) also decoded from a binary v3 file written by the independent encoder, where terms may be flagged obsolete / replaced - the property quantifies over all terms of all ontologies and its set algebra does not mention flags, so flagged terms count like any other; both terms belong to the same ontology".into(),
+        "two-instances: the ancestor queries accept any two HpoTerm handles; for terms of two different Ontology instances the ancestors of each term are those in its own ontology (what the crate's comparison of two releases relies on); both instances hold the same ids, so the resolving twins can resolve every result in the first term's ontology".into(),
+        "iterator adaptors (count, size_hint, nth, skip, last) of hpo's iterators must agree with their own forward iteration; size_hint only has to bracket the number of remaining items".into(),
         "Combined (iterator twins): the order of iteration is not part of the property; the multiset of yielded ids is compared (so a repeated id is still caught)".into(),
     ];
     histories(ctx);
@@ -1745,4 +1929,5 @@ pub fn run(ctx: &mut Ctx) {
     ancestors_deep(ctx, &mut seen);
     ancestors_flagged(ctx, &mut seen);
     ancestors_chain300(ctx, &mut seen);
+    ancestors_across(ctx, &mut seen);
 }
